@@ -303,10 +303,14 @@ O(id='_range_union.p2', props=['C09', 'C08'], kind='bounded', entry='h_range_uni
 O(id='_range_union.p3', props=['C09', 'C08'], kind='bounded', entry='h_range_union', functions=['_range_union', '_range_remove_element', '_range_compare'],
   stubs=['stubs/qsort3.c'], unwind=6, cbmc=['--no-malloc-may-fail', '--memory-leak-check'], tier='experimental',
   bound='a union of three arbitrary simple ranges', trusted=['qsort: stub (stubs/qsort3.c)'], min_props=30, timeout=2400, **dict(CR, defines=['VF_NP=3', 'HAVE_CONFIG_H']))
+O(id='_range_intersection.p2', props=['C09'], kind='bounded', entry='h_range_intersection2',
+  functions=['_range_intersection', '_range_split', '_range_remove_element', '_range_insert'], stubs=['stubs/qsort3.c'], unwind=10,
+  cbmc=['--no-malloc-may-fail'], bound='a two-piece parent and a simple operand, 128-bit values within +-2^100, PER rules',
+  trusted=['qsort: stub (stubs/qsort3.c)'], min_props=30, timeout=3000, mem_gb=30, tier='experimental', **CR)
 O(id='_range_intersection.simple', props=['C09'], kind='bounded', entry='h_range_intersection',
   functions=['_range_intersection', '_range_split', '_range_remove_element', '_range_insert'], stubs=['stubs/qsort3.c'], unwind=8,
   cbmc=['--no-malloc-may-fail', '--memory-leak-check'], bound='two simple (one-interval) operands, 128-bit values, PER rules (is_oer=0, no strict edge check)',
-  trusted=['qsort: stub (stubs/qsort3.c)'], min_props=30, timeout=1500, tier='experimental', **CR)
+  trusted=['qsort: stub (stubs/qsort3.c)'], min_props=30, timeout=3000, mem_gb=30, tier='experimental', **CR)
 
 # ---------------------------------------------------------------- C20: unber
 UB = dict(harness='harness/h_unber.c', units=['asn1-tools/unber/libasn1_unber_tool.c'],
